@@ -247,3 +247,19 @@ def day_of(sec):
 def iso(sec):
     import datetime
     return datetime.datetime.fromtimestamp(int(sec), datetime.timezone.utc).strftime("%Y-%m-%d %H:%M:%S")
+
+
+def raised_in_repo(exc):
+    """True if the innermost harness-or-repo frame of the traceback belongs to qstrader (the code under
+    test), i.e. the exception originated below a public API call and not in the harness itself."""
+    import os
+    import traceback
+    here = os.path.dirname(os.path.abspath(__file__))
+    frames = traceback.extract_tb(exc.__traceback__)
+    for fr in reversed(frames):
+        fn = os.path.abspath(fr.filename)
+        if fn.startswith(here + os.sep):
+            return False
+        if (os.sep + "qstrader" + os.sep) in fn:
+            return True
+    return False
